@@ -58,6 +58,17 @@ def c13_obs(prop):
     return obs
 
 
+PARAM_FLAGS = ["-unwind", "24", "-solver", "cvc5", "-fallback", "z3", "-query-timeout-ms", "5000", "-regex-exact", "16"]
+PARAM_ASSUME = ["parameters are written by the harness in the documented syntax: bare word | \"quoted value\" (inner quotes written \\\") | NAME=bare | NAME=\"quoted\"; values range over every ASCII string of the stated length except backtick, $, backslash and NUL (command substitution, variable expansion and backslash escapes are separate features); bare words contain no white space or quote, unnamed bare words no '='; names are the letters P, Q",
+                "regexp results are exact (-regex-exact): the subject's characters are forked over the partition of the alphabet induced by the pattern's character sets and Go's own regexp runs on a representative; the real builder runs in evaluating mode over the os.Setenv/Getenv model"]
+
+
+def param_ob(prop, prefixes, must):
+    return {"name": prop + ".params", "pkg": "./internal/persistence/model", "replay": "R1", "label_prefixes": prefixes, "must_assert": must,
+            "quick": {"entry": "VerifHarness_C11_paramsL2", "flags": PARAM_FLAGS, "sample_paths": 2, "timeout_s": 1500, "bounds": {"parameters": 1, "value_len": "0..2"}},
+            "thorough": {"entry": "VerifHarness_C11_paramsL3", "flags": PARAM_FLAGS, "sample_paths": 2, "timeout_s": 7200, "bounds": {"parameters": 1, "value_len": "0..3"}}}
+
+
 C12_FLAGS = ["-unwind", "64", "-concrete-clock", "-solver", "cvc5", "-fallback", "z3", "-query-timeout-ms", "10000"]
 C12_ASSUME = ["the real Scheduler.Schedule runs one step with the real Node.setup / Execute / teardown over the file-system model",
               "scripted executor delivers one stdout and one stderr chunk per attempt through os/exec's copying discipline (vfCopyTo: *os.File direct; io.ReaderFrom => ReadFrom; else Write)",
@@ -234,9 +245,10 @@ PROPS = {    "C01": {
              "thorough": {"entry": "VerifHarness_C10_reset4", "flags": ["-unwind", "24"], "bounds": {"N": 4}}},
             ag_ob("C10.retry", "VerifHarness_AG_retry", ["C10."], ["C10.newrun/history-is-opened-under-the-new-request-id", "C10.exec/unfinished-step-is-re-executed", "C10.exec/step-that-completed-is-not-re-executed"],
                   {"steps": "2 (chain)", "recorded_status": "all 6 values per step, reachable vectors", "continueOn.failure": "symbolic"}),
+            param_ob("C10", ["C10."], ["C10.params/recorded-parameters-parse-back-to-the-same-values"]),
         ],
-        "assumptions": ["distinct step names", "recorded steps listed in a topological order (as the builder produces them is NOT assumed by the code; the harness builds deps j<i)"],
-        "outside_claim": COMMON_OUTSIDE + ["parameter values of the recorded run (regexp submatch semantics; DESIGN section 7)"],
+        "assumptions": ["distinct step names", "recorded steps listed in a topological order (as the builder produces them is NOT assumed by the code; the harness builds deps j<i)"] + PARAM_ASSUME,
+        "outside_claim": COMMON_OUTSIDE + ["parameter strings with more than one parameter or values longer than 3 bytes; an unnamed value containing '=' is recorded as word=word and read back as a named parameter (same strings, one more environment variable): not distinguished by the oracle"],
     },
     "C11": {
         "obligations": [
@@ -248,9 +260,10 @@ PROPS = {    "C01": {
             {"name": "C11.big", "pkg": SCHED, "replay": "R1t", "labels_unordered": True, "label_prefixes": ["C11."], "must_assert": ["C11.big/step-with-captured-output-finishes"],
              "quick": {"entry": "VerifHarness_C11_big", "flags": C12_FLAGS[:-1] + ["3000"], "sample_paths": 1,
                        "bounds": {"attempts": 1, "captured_output_len": "<= 100000 bytes, symbolic (crosses the 65536-byte pipe capacity)", "pipe_capacity": 65536}}},
+            param_ob("C11", ["C11."], ["C11.params/positional-parameter-has-exactly-the-given-value", "C11.params/named-parameter-has-exactly-the-given-value"]),
         ],
-        "assumptions": C12_ASSUME + ["os.Pipe: a write that would take the pipe beyond 65536 bytes blocks until a thread is reading the pipe to EOF (io.Copy), forever if none does; io.Copy from a pipe returns after the write end is closed"],
-        "outside_claim": COMMON_OUTSIDE + ["parameters ($1..$n, NAME=value, quoting, the parse/join/re-parse round trip): decided by regexp submatch semantics, not applicable to this technique (DESIGN section 7)",
+        "assumptions": C12_ASSUME + PARAM_ASSUME + ["os.Pipe: a write that would take the pipe beyond 65536 bytes blocks until a thread is reading the pipe to EOF (io.Copy), forever if none does; io.Copy from a pipe returns after the write end is closed"],
+        "outside_claim": COMMON_OUTSIDE + ["parameter strings with more than one parameter, values longer than 3 bytes, backslashes / command substitution / variable expansion inside parameter values; parameters overridden at start (same parser, other entry)",
                                            "visibility of the captured value to later steps' child processes (C11.see): not built", "C11.big decides termination only (content of a >64 KiB value is not compared)", "non-ASCII output"],
     },
     "C12": {
